@@ -256,6 +256,50 @@ def randomize_bn(torch, m, rng, g, affine_ok=True):
     return info
 
 
+def reparametrize(torch, m, spec, rng, seed):
+    """re-parametrised layers (torch.nn.utils): prune.l1_unstructured / prune.random_unstructured with the mask still attached
+    (state_dict: weight_orig + weight_mask, `weight` is a plain attribute recomputed by a forward pre-hook) on a random subset of
+    the conv/linear layers, the classic weight_norm (weight_g / weight_v) on others"""
+    import torch.nn as nn
+    from torch.nn.utils import prune, weight_norm
+    done = {}
+    torch.manual_seed(9000 + seed)
+    with torch.no_grad():
+        for i, nd in enumerate(spec['nodes']):
+            if nd['k'] not in CONVS or ('n%d' % i) not in m.layers:
+                continue
+            mod = m.layers['n%d' % i]
+            if type(mod) not in (nn.Conv1d, nn.Conv2d, nn.Linear) or hasattr(mod, 'weight_orig') or hasattr(mod, 'weight_g'):
+                continue
+            r = rng.random()
+            if r < 0.3 and mod.weight.numel() >= 2:
+                prune.l1_unstructured(mod, 'weight', amount=0.3)
+                done[ga.name(i)] = 'prune-l1'
+            elif r < 0.5 and mod.weight.numel() >= 2:
+                prune.random_unstructured(mod, 'weight', amount=0.4)
+                done[ga.name(i)] = 'prune-random'
+            elif r < 0.75 and bool((mod.weight.flatten(1).norm(dim=1) > 0).all()):      # g * v / |v| is NaN for an all-zero filter
+                weight_norm(mod, 'weight')
+                done[ga.name(i)] = 'weight-norm'
+    return done
+
+
+def detach_computed(model):
+    """a re-parametrised layer keeps `weight` as a plain tensor attribute that its pre-hook recomputes at every forward; when the
+    last forward ran with autograd on, that tensor is a non-leaf and the module cannot be deep-copied.  Detaching it changes
+    nothing the model computes (the hook recomputes it from weight_orig*mask / g*v/|v| at the next forward)"""
+    for mod in model.modules():
+        for name in ('weight', 'bias'):
+            v = vars(mod).get(name)
+            if v is not None and hasattr(v, 'grad_fn') and v.grad_fn is not None:
+                setattr(mod, name, v.detach())
+
+
+def clone(model):
+    detach_computed(model)
+    return copy.deepcopy(model)
+
+
 def add_training_branch(torch, m, spec, variant, rng):
     """make forward() READ self.training (torch.fx bakes Python control flow at trace time): the eval-time function is
     what the property is about.  variants:
@@ -359,7 +403,7 @@ def module_list(torch, model, method, excl):
         from plinio.methods.mps.graph import MPSTracer as T
     else:
         from plinio.methods.pit.graph import PITTracer as T
-    mm = copy.deepcopy(model)
+    mm = clone(model)
     flags = {n: m.training for n, m in model.named_modules()}
     tr = T()
     g = tr.trace(mm.eval())
@@ -392,7 +436,7 @@ def module_list(torch, model, method, excl):
 def trace_plain(torch, model, xs):
     import torch.fx as fx
     from plinio.methods.pit.graph import PITTracer
-    mm = copy.deepcopy(model).eval()
+    mm = clone(model).eval()
     tr = PITTracer()
     g = tr.trace(mm)
     return fx.GraphModule(tr.root, g)
@@ -422,7 +466,7 @@ def module_options(model):
 def own_mode_run(torch, model, xs, seed):
     """output of a copy of the model in the mode (flags) it is in, with a fixed random stream, and the copy's state
     afterwards (training-mode BatchNorm updates its statistics, Dropout draws a mask)"""
-    mc = copy.deepcopy(model)
+    mc = clone(model)
     torch.manual_seed(4242 + seed)
     with torch.no_grad():
         y = mc(*xs)
@@ -471,6 +515,8 @@ def run_case(torch, seed, cfg):
         xs = ga.example_input(spec, torch, seed, integer=integer, dtype=torch.float64)
         rng = random.Random(seed * 7 + 1)
         g = torch.Generator().manual_seed(seed + 5)
+        if cfg.get('reparam'):
+            o['reparam'] = reparametrize(torch, m, spec, rng, seed)
         if cfg.get('tbranch'):
             o['tbranch'] = add_training_branch(torch, m, spec, cfg['tbranch'], rng)
             m = m.to(torch.float64)
@@ -520,6 +566,9 @@ def run_case(torch, seed, cfg):
         m.eval()
         with torch.no_grad():
             y0 = m(*xs)
+        if not all(bool(torch.isfinite(t).all()) for t in (y0 if isinstance(y0, (tuple, list)) else [y0])):
+            o['skip'] = 'original-output-not-finite'
+            return o
         m.train(bool(cfg['train']))
         flipped = []
         if cfg.get('mixed'):
@@ -536,6 +585,8 @@ def run_case(torch, seed, cfg):
         o['flipped'] = sorted(set(flipped))
         sd0, fl0 = snapshot(m)
         own0 = own_mode_run(torch, m, xs, seed)
+        wb0 = {n: (mod.weight.detach().clone(), None if mod.bias is None else mod.bias.detach().clone()) for n, mod in m.named_modules()
+               if isinstance(mod, (nn.Conv1d, nn.Conv2d, nn.Linear))}
         opt0 = module_options(m)
         user_mods = dict(m.named_modules())
         leaf_names = [n for n, mod in user_mods.items() if n and not isinstance(mod, (nn.ModuleDict, nn.ModuleList)) and n.startswith('layers.')]
@@ -606,7 +657,7 @@ def run_case(torch, seed, cfg):
         with torch.no_grad():
             yw = w(*xs)
         ob['d_wrapper'] = maxdiff(torch, y0, yw)
-        mc = copy.deepcopy(m).eval()
+        mc = clone(m).eval()
         with torch.no_grad():
             yu = mc(*xs)
         ob['d_user_after'] = maxdiff(torch, y0, yu)
@@ -635,8 +686,7 @@ def run_case(torch, seed, cfg):
                     if cn in layers and ident.get(bn_) == 'absent':
                         L = seed_mods[cn]
                         uc, ub = user_mods[cn], user_mods[bn_]
-                        w0 = sd0[cn + '.weight']
-                        b0 = sd0.get(cn + '.bias')
+                        w0, b0 = wb0[cn]
                         ch_ = rng.randrange(w0.shape[0])
                         r = torch.rsqrt(sd0[bn_ + '.running_var'] + ub.eps)
                         folds.append({'layer': cn, 'channel': ch_,
